@@ -2564,7 +2564,7 @@ class VM:
             # Use synchronous execution (like _call_callback)
             return self._call_callback(getter, [], this_val)
         elif callable(getter):
-            return getter()
+            return from_python(getter())
         return UNDEFINED
 
     def _invoke_setter(self, setter: Any, this_val: JSValue, value: JSValue) -> None:
